@@ -43,6 +43,13 @@ func (g *Gen) smt(o *Obl) string {
 		// every string has a length between 0 and the address-space bound (DESIGN 8.3)
 		constFacts = append(constFacts, fmt.Sprintf("(forall ((s!l Int)) (! (and (<= 0 (|strlen| s!l)) (<= (|strlen| s!l) %s) (= (= (|strlen| s!l) 0) (= s!l 0))) :pattern ((|strlen| s!l))))", maxLen))
 	}
+	if need["|pathJoin2|"] && !o.Cover { // (cover queries look for a model: the conservative axiom is left out there)
+		// filepath.Join(dir, name) for a simple name: different directories or different names give different
+		// paths (stated through two projections, instantiated only for the join terms that occur)
+		need[g.uf("pjDir", 1, "Int")] = true
+		need[g.uf("pjName", 1, "Int")] = true
+		constFacts = append(constFacts, "(forall ((a!p Int) (b!p Int)) (! (and (= (|pjDir| (|pathJoin2| a!p b!p)) a!p) (= (|pjName| (|pathJoin2| a!p b!p)) b!p)) :pattern ((|pathJoin2| a!p b!p))))")
+	}
 	if need["|declen|"] {
 		// the decimal representation of a 64-bit integer has between 1 and 20 characters
 		constFacts = append(constFacts, "(forall ((n!d Int)) (! (and (<= 1 (|declen| n!d)) (<= (|declen| n!d) 20)) :pattern ((|declen| n!d))))")
@@ -256,6 +263,22 @@ func (g *Gen) discharge(o *Obl, timeoutS int, tmpdir string, confirm bool) {
 		}
 		best.secs += second.secs
 	}
+	if o.Cover && best.res != "sat" && best.res != "unsat" {
+		// a vacuity query that no solver decides (quantified preconditions: finding a model of a
+		// quantified formula is not what SMT solvers are good at) is repeated on the quantifier-free part
+		// of the path condition; that still exposes a plainly contradictory precondition
+		f2, err := os.CreateTemp(tmpdir, "vc*.smt2")
+		if err == nil {
+			f2.WriteString(stripQuantifiers(script))
+			f2.Close()
+			r2 := runSolver(ctx, "z3-new", f2.Name(), timeoutS)
+			os.Remove(f2.Name())
+			if r2.res == "sat" {
+				best = r2
+				best.solver = "z3-new(quantifier-free part)"
+			}
+		}
+	}
 	o.Result, o.Solver, o.Secs, o.Model = best.res, best.solver, best.secs, best.model
 	if d := os.Getenv("GOVC_DUMP"); d != "" && (os.Getenv("GOVC_DUMP_ALL") != "" || (o.Cover && best.res != "sat") || (!o.Cover && best.res != "unsat")) {
 		os.MkdirAll(d, 0755)
@@ -280,3 +303,37 @@ func (o *Obl) ok() bool {
 }
 
 const govcVersion = "govc 0.1 (contract-based VC generator for pdfcpu; go/ssa naive form -> SMT-LIB)"
+
+// stripQuantifiers replaces every (forall ...) / (exists ...) sub-term of an SMT-LIB script by true.
+func stripQuantifiers(script string) string {
+	var sb strings.Builder
+	i := 0
+	for i < len(script) {
+		if strings.HasPrefix(script[i:], "(forall ") || strings.HasPrefix(script[i:], "(exists ") {
+			depth, j := 0, i
+			for j < len(script) {
+				switch script[j] {
+				case '(':
+					depth++
+				case ')':
+					depth--
+				case '|': // quoted symbol: skip to its end
+					j++
+					for j < len(script) && script[j] != '|' {
+						j++
+					}
+				}
+				j++
+				if depth == 0 {
+					break
+				}
+			}
+			sb.WriteString("true")
+			i = j
+			continue
+		}
+		sb.WriteByte(script[i])
+		i++
+	}
+	return sb.String()
+}
